@@ -201,10 +201,7 @@ Definition print_parse_model (p : purl) : option purl :=
   | Some q => if valid_type (p_type q) then Some q else None
   end.
 
-(* types the emitted-types theorem is known to fail for on the current tree (domain D) *)
 Definition s_snap : bytes := [115;110;97;112].
-Definition known_invalid_emitted : list bytes := [s_snap].
-Definition in_D_type (t : bytes) : bool := negb (one_of t known_invalid_emitted).
 (* known finding: a pkg:cran purl without version (r/renvlock on an entry lacking "Version") is rejected by
    packageurl-go's type-specific rule "cran: version is required" *)
 Definition known_unparseable (p : purl) : bool := beq (to_lower (p_type p)) s_cran && is_nil (p_version p).
